@@ -208,6 +208,11 @@ def run_on_virtual_loop(coro_fn: Callable[[], Any], clock: SimClock, on_idle: Ca
 
 
 # --------------------------------------------------------------------------- bus seam
+def wire_id(msg) -> int:
+    """The identifier a frame carries on the wire: a standard-format frame has 11 identifier bits only."""
+    return msg.arbitration_id if getattr(msg, "is_extended_id", False) else (msg.arbitration_id & 0x7FF)
+
+
 def make_bus_class():
     import can
 
@@ -285,7 +290,7 @@ def make_machine(kind: str, monitored: List[int], tx_ids: List[int], res: EntryR
         SimBus = make_bus_class()
 
         def on_send(msg) -> None:
-            res.sent.append((cursor(), msg.arbitration_id, bytes(msg.data)))
+            res.sent.append((cursor(), wire_id(msg), bytes(msg.data)))
 
         bus = SimBus(lambda: None, on_send)
         args = dict(can_bus=bus, can_rx_ids=list(monitored), can_tx_ids=list(tx_ids),
@@ -513,7 +518,7 @@ def feed_bus(frames: Sequence[Tuple[int, bytes]], kind: str, monitored: List[int
                            is_extended_id=fid > 0x7FF, is_fd=len(data) > 8, check=False)
 
     def on_send(msg) -> None:
-        res.sent.append((max(state["k"], 0), msg.arbitration_id, bytes(msg.data)))
+        res.sent.append((max(state["k"], 0), wire_id(msg), bytes(msg.data)))
 
     rx_bus = SimBus(next_frame, on_send)
     if kind.endswith("active"):
